@@ -498,3 +498,15 @@ func splitGoal(t *sx) []*sx {
 	}
 	return []*sx{t}
 }
+
+// dynamic types of objects allocated in verified code: dyntype(ref) = id of the (pointer) type
+func (u *Unit) dynTypeFn() string { return "dyntype" } // declared in the prelude
+
+func (u *Unit) dynTypeID(t types.Type) string {
+	h := uint32(2166136261)
+	for _, c := range []byte(typeKey(t)) {
+		h ^= uint32(c)
+		h *= 16777619
+	}
+	return fmt.Sprint(h)
+}
